@@ -28,6 +28,28 @@ static void hdr_resize(size_t n) { __CPROVER_assert(n <= g_hdr_len, "header_.res
     (((s)->state_ != closing_bracket_expected && (s)->state_ != pass_closing_bracket_expected) ==> (s)->bracket_counter_ == 0))
 '''
 
+HP = 'private/http_protocol.h'; HA = 'src/http_api.cpp'
+PRE += r'''
+/* ---- RFC 2616 2.2 token / separators / LWS (private/http_protocol.h) and the "Name: value" splitter of the embedded server */
+#define IS_SEP(c) ((c)=='(' || (c)==')' || (c)=='<' || (c)=='>' || (c)=='@' || (c)==',' || (c)==';' || (c)==':' || (c)=='\\' || (c)=='"' || (c)=='/' || (c)=='[' || (c)==']' || (c)=='?' || (c)=='=' || (c)=='{' || (c)=='}' || (c)==' ' || (c)=='\t')
+#define IS_TOKCH(c) ((c) >= 0x20 && (c) <= 0x7E && !IS_SEP(c))
+#define CGI_NORM(c) ((c) == '-' ? '_' : ((c) >= 'a' && (c) <= 'z') ? (char)((c) - 'a' + 'A') : (c))
+size_t g_pk;                                             /* arbitrary ghost index */
+char const *g_cp_src[2]; char *g_cp_dst[2]; size_t g_cp_n[2]; int g_cp_calls;
+size_t g_alloc_n; char *g_alloc_p;
+static char *pool_alloc(size_t n) { char *p = malloc(n); __CPROVER_assume(p != NULL); g_alloc_n = n; g_alloc_p = p; return p; }
+/* std::copy(first,last,dest) on char ranges: copies the bytes, returns dest + (last-first); observed at the ghost index; the two calls of the function are recorded.
+   The destination must be the block just obtained from the pool and hold the range plus the terminator the caller stores through the returned pointer */
+static char *copy_range(char const *b, char const *e, char *dst)
+{
+  __CPROVER_assert(SAME(b, e) && OFF(b) <= OFF(e), "std::copy source is an ordered range of one object");
+  size_t n = OFF(e) - OFF(b);
+  __CPROVER_assert(dst == g_alloc_p && n < g_alloc_n, "std::copy destination is the block just allocated and holds the range plus the NUL terminator");
+  if(g_pk < n) dst[g_pk] = b[g_pk];
+  if(g_cp_calls < 2) { g_cp_src[g_cp_calls] = b; g_cp_dst[g_cp_calls] = dst; g_cp_n[g_cp_calls] = n; } g_cp_calls++;
+  return dst + n;
+}
+'''
 functions = [
     dict(cname='http_parser_step', file=H, locate=r'int step\(\)', sig='int http_parser_step(struct hparser *self)', members=['state_', 'bracket_counter_'],
          rename={'getc': 'p_getc', 'ungetc': 'p_ungetc'},
@@ -49,6 +71,43 @@ __CPROVER_ensures(__CPROVER_return_value >= more_data && __CPROVER_return_value 
 __CPROVER_ensures(__CPROVER_return_value == more_data ==> (g_in_pos == g_in_n && !g_ungot && HP_INV(self)))
 __CPROVER_ensures(__CPROVER_return_value == got_header ==> (self->state_ == idle && self->bracket_counter_ == 0))
 '''),
+    dict(cname='proto_separator', file=HP, locate=lit('inline bool separator(char c)'), sig='bool proto_separator(char c)',
+         contract='__CPROVER_assigns()\n/* RFC 2616 2.2 separators */\n__CPROVER_ensures(__CPROVER_return_value == (IS_SEP(c) ? 1 : 0))'),
+    dict(cname='proto_tocken', file=HP, locate=lit('It tocken(It begin,It end)'), sig='char const *proto_tocken(char const *begin, char const *end)', rename={'separator': 'proto_separator'},
+         loops={0: '__CPROVER_assigns(begin, c)\n__CPROVER_loop_invariant(IN_RANGE(begin, __CPROVER_loop_entry(begin), end) && (g_pk < OFF(begin) - OFF(__CPROVER_loop_entry(begin)) ==> IS_TOKCH((__CPROVER_loop_entry(begin))[g_pk])))\n__CPROVER_decreases(OFF(end) - OFF(begin))'},
+         contract='__CPROVER_requires(VALID_RANGE(begin, end) && OFF(end) - OFF(begin) <= BUF_CAP)\n__CPROVER_assigns()\n'
+                  '/* the longest prefix of token characters */\n'
+                  '__CPROVER_ensures(IN_RANGE(__CPROVER_return_value, begin, end) && (g_pk < OFF(__CPROVER_return_value) - OFF(begin) ==> IS_TOKCH(begin[g_pk])) && (__CPROVER_return_value == end || !IS_TOKCH(*__CPROVER_return_value)))'),
+    dict(cname='proto_skip_ws', file=HP, locate=lit('It skip_ws(It p,It end)'), sig='char const *proto_skip_ws(char const *p, char const *end)',
+         loops={0: '__CPROVER_assigns(p)\n__CPROVER_loop_invariant(IN_RANGE(p, __CPROVER_loop_entry(p), end) && (g_pk < OFF(p) - OFF(__CPROVER_loop_entry(p)) ==> ((__CPROVER_loop_entry(p))[g_pk] == 0x20 || (__CPROVER_loop_entry(p))[g_pk] == 0x09 || (__CPROVER_loop_entry(p))[g_pk] == 0x0d || (__CPROVER_loop_entry(p))[g_pk] == 0x0a)))\n__CPROVER_decreases(OFF(end) - OFF(p))'},
+         contract='/* callers pass ranges inside NUL-terminated strings: one more byte is addressable after `end`, so `p+2` in the LWS test never goes beyond one-past-the-end (observation: without that byte the comparison would be undefined) */\n__CPROVER_requires(VALID_RANGE(p, end) && OFF(end) - OFF(p) <= BUF_CAP && __CPROVER_r_ok(p, OFF(end) - OFF(p) + 1))\n__CPROVER_assigns()\n'
+                  '/* skips SP, HT and line continuations (CR LF followed by SP/HT) only, and stops at the first byte that is none of these */\n'
+                  '__CPROVER_ensures(IN_RANGE(__CPROVER_return_value, p, end) && (g_pk < OFF(__CPROVER_return_value) - OFF(p) ==> (p[g_pk] == 0x20 || p[g_pk] == 0x09 || p[g_pk] == 0x0d || p[g_pk] == 0x0a)) && '
+                  '(__CPROVER_return_value == end || (*__CPROVER_return_value != 0x20 && *__CPROVER_return_value != 0x09)))'),
+    dict(cname='http_header_name_step', file=HA, locate=lit('virtual bool parse_single_header(std::string const &header,char const *&o_name,char const *&o_value)'),
+         sig='void http_header_name_step(char *name, unsigned i)', slice=dict(loop=0, after=r'\A', tail=''),
+         contract='/* one step of the name normalisation loop of parse_single_header (the loop body, extracted as it stands) */\n'
+                  '__CPROVER_requires(__CPROVER_rw_ok(name + i, 1))\n__CPROVER_assigns(name[i])\n'
+                  '/* CGI convention: \'-\' becomes \'_\', EVERY lower-case letter a..z becomes upper case, everything else is kept */\n'
+                  '__CPROVER_ensures(name[i] == CGI_NORM(__CPROVER_old(name[i])))'),
+    dict(cname='http_parse_single_header', file=HA, locate=lit('virtual bool parse_single_header(std::string const &header,char const *&o_name,char const *&o_value)'),
+         sig='bool http_parse_single_header(char const *header_p, size_t header_n, char const **o_name, char const **o_value)', refs=['o_name', 'o_value'],
+         rewrites=[(r'header\.c_str\(\)', 'header_p', 1), (r'header\.size\(\)', 'header_n', 1), (r'cppcms::http::protocol::skip_ws\(', 'proto_skip_ws(', 3), (r'cppcms::http::protocol::tocken\(', 'proto_tocken(', 1),
+                   (r'pool_\.alloc\(', 'pool_alloc(', 2), (r'\*std::copy\(', '*copy_range(', 2)],
+         loops={0: '''__CPROVER_assigns(i, __CPROVER_object_whole(name))
+__CPROVER_loop_invariant(i <= name_size && name_size >= 1 && name_size <= BUF_CAP && name[name_size] == 0 && (g_pk < name_size ==> name[g_pk] == (g_pk < i ? CGI_NORM(g_cp_src[0][g_pk]) : g_cp_src[0][g_pk])))
+__CPROVER_decreases(name_size - i)'''},
+         contract=r'''
+__CPROVER_requires(header_n <= BUF_CAP && __CPROVER_r_ok(header_p, header_n + 1) && header_p[header_n] == 0 && __CPROVER_w_ok(o_name, sizeof(*o_name)) && __CPROVER_w_ok(o_value, sizeof(*o_value)) && g_cp_calls == 0)
+__CPROVER_assigns(*o_name, *o_value, g_cp_calls, __CPROVER_object_whole(g_cp_src), __CPROVER_object_whole(g_cp_dst), __CPROVER_object_whole(g_cp_n), g_alloc_n, g_alloc_p)
+/* C01: "Name: value" -> the CGI variable name is the header's token, upper-cased with '-' -> '_', nothing more and nothing less; the value is the rest of the line after the colon and
+   leading white space, verbatim up to the end of the header; both are NUL-terminated copies (C02: every copy fits its allocation - asserted in the copy model) */
+__CPROVER_ensures(__CPROVER_return_value ==> (g_cp_calls == 2 && *o_name == g_cp_dst[0] && *o_value == g_cp_dst[1] && g_cp_n[0] >= 1 &&
+                  SAME(g_cp_src[0], header_p) && SAME(g_cp_src[1], header_p) && OFF(g_cp_src[0]) >= OFF(header_p) && OFF(g_cp_src[0]) + g_cp_n[0] < OFF(g_cp_src[1]) &&
+                  OFF(g_cp_src[1]) + g_cp_n[1] == OFF(header_p) + header_n))
+__CPROVER_ensures(__CPROVER_return_value ==> ((*o_name)[g_cp_n[0]] == 0 && (*o_value)[g_cp_n[1]] == 0 && (g_pk < g_cp_n[0] ==> (IS_TOKCH(g_cp_src[0][g_pk]) && (*o_name)[g_pk] == CGI_NORM(g_cp_src[0][g_pk]))) &&
+                  (g_pk < g_cp_n[1] ==> (*o_value)[g_pk] == g_cp_src[1][g_pk])))
+'''),
 ]
 PRE += 'size_t g_h0, g_p0, g_c0, g_u0;\n'
 
@@ -59,6 +118,13 @@ jobs = [
     char a, b; g_hdr_last = a; g_hdr_prev = b; bool u; int uc; g_ungot = u; g_ungot_c = uc;
     struct hparser p;
     http_parser_step(&p); VERIF_REACH;'''),
+    dict(name='proto_separator', props=P, enforce='proto_separator', harness='char c; proto_separator(c); VERIF_REACH;'),
+    dict(name='proto_tocken', props=P, enforce='proto_tocken', replace=['proto_separator'], harness='SYM_BUF(char, b, n, BUF_CAP); size_t k; g_pk = k; proto_tocken(b, b + n); VERIF_REACH;'),
+    dict(name='proto_skip_ws', props=P, enforce='proto_skip_ws', harness='size_t n, k; __CPROVER_assume(n <= BUF_CAP); char *b = malloc(n + 1); __CPROVER_assume(b != NULL); g_pk = k; proto_skip_ws(b, b + n); VERIF_REACH;'),
+    dict(name='http_header_name_step', props=P, enforce='http_header_name_step', harness='char nm[8]; unsigned i; __CPROVER_assume(i < 8); http_header_name_step(nm, i); VERIF_REACH;'),
+    dict(name='http_parse_single_header', props=P, tier='thorough', enforce='http_parse_single_header', replace=['proto_tocken', 'proto_skip_ws'], per_property=r'.', pp_chunk=10, pp_workers=14, timeout=600, harness=r'''
+    size_t n, k; __CPROVER_assume(n <= BUF_CAP); char *b = malloc(n + 1); __CPROVER_assume(b != NULL && b[n] == 0); g_pk = k; g_cp_calls = 0; char const *on, *ov;
+    http_parse_single_header(b, n, &on, &ov); VERIF_REACH;'''),
 ]
 
 UNIT = dict(
